@@ -12,6 +12,7 @@ tables, re-extracted from /repo on every run into lean/YashModel/Generated/Quote
   specialParamChars                                   yash-syntax/src/syntax/conversions.rs SpecialParam::from_char
   separatorPrefixes                                   yash-builtin/src/typeset/print_variables.rs print_one (`name.starts_with(..)`)
   functionSeparatorPrefixes                           yash-builtin/src/typeset/print_functions.rs print_one (`function.name.starts_with(..)`)
+  keywords, arrayAcceptsKeywords                      yash-syntax/src/parser/lex/keyword.rs `Keyword::from_str`; parser/simple_command.rs `array_values`
   whitespaceRanges                                    Rust std `char::is_whitespace` (Unicode White_Space); std is not
                                                       part of /repo, so this is a constant here, compared with the
                                                       real `char::is_whitespace` over code points by harness c07 (`c` leg).
@@ -393,6 +394,24 @@ def quote_tables(T):
     if 'writeln!( output, "{} -f{} {}{}", context.builtin_name, options_to_print, separator, name )' not in pf:
         T.fail("print_functions.rs print_one: the attribute line format has changed")
 
+    # --- reserved words (lex/keyword.rs `FromStr for Keyword`) and what `array_values` does with them
+    kw = strip_comments(T.read("yash-syntax/src/parser/lex/keyword.rs"))
+    kbody = T.item_body(kw, r"fn from_str\(s: &str\) -> Result<Keyword, ParseKeywordError>", "Keyword::from_str")
+    keywords = re.findall(r'"([^"\\]+)"\s*=>\s*Ok\(', kbody)
+    if not keywords:
+        T.fail("Keyword::from_str: no arms found")
+    sc = strip_comments(T.read("yash-syntax/src/parser/simple_command.rs"))
+    abody = squash(T.item_body(sc, r"pub async fn array_values\(&mut self\) -> Result<Option<Vec<Word>>>", "array_values"))
+    m = re.search(r"matchnext\.id\{Operator\(Newline\)=>continue,Operator\(CloseParen\)=>break,Token\((\w+)\)=>words\.push\(next\.word\),_=>\{returnErr", abody)
+    if not m:
+        T.fail("array_values: the token loop (Newline / CloseParen / Token(..) => push / error) has changed")
+    if m.group(1) == "None":
+        array_accepts_keywords = False
+    elif re.fullmatch(r"_\w*", m.group(1)):
+        array_accepts_keywords = True
+    else:
+        T.fail(f"array_values: unexpected pattern `Token({m.group(1)})`")
+
     ranges = ", ".join(f"({a}, {b})" for a, b in WHITE_SPACE)
     infix_l = "[" + ", ".join(lean_chars(T, list(s)) for s in infix) + "]"
     pairs_l = "[" + ", ".join(f"({T.lean_char(a)}, {T.lean_char(b)})" for a, b in pairs) + "]"
@@ -422,6 +441,11 @@ def specialParamChars : List Char := {lean_chars(T, special)}
 def separatorPrefixes : List Char := {lean_chars(T, sep_chars)}
 /-- yash-builtin `print_functions.rs` `print_one`: first characters of a function name before which `-- ` is printed -/
 def functionSeparatorPrefixes : List Char := {lean_chars(T, fsep_chars)}
+/-- yash-syntax `Keyword::from_str`: the reserved words -/
+def keywords : List (List Char) := [{", ".join(T.lean_str(k) + ".toList" for k in keywords)}]
+/-- yash-syntax `array_values`: the arm `Token(_keyword) => words.push(..)` accepts a reserved word as an
+    array element (`false` if the arm only takes `Token(None)`) -/
+def arrayAcceptsKeywords : Bool := {"true" if array_accepts_keywords else "false"}
 /-- Rust `char::is_whitespace` (Unicode White_Space) as inclusive code point ranges; checked against the
     real function by harness `c07` -/
 def whitespaceRanges : List (Nat × Nat) := [{ranges}]
